@@ -1095,7 +1095,14 @@ class Envelope:
             t_a=delay, omega_a=(C0 / n) / other.wavelength
         )
         integrand = lambda x: np.conj(f1(x)) * f2(x)
-        result, _ = quad(integrand, -np.inf, np.inf)
+        # Integrate over a finite window around the two pulse centres: quadrature over
+        # (-inf, inf) never samples a pulse that is narrow on the scale of seconds
+        p1, p2 = self.temporal_profile.params, other.temporal_profile.params
+        c1 = p1.get("mu", 0)
+        c2 = delay + p2.get("mu", 0)
+        width = max(abs(p1.get("sigma", 1)), abs(p2.get("sigma", 1)))
+        lower, upper = min(c1, c2) - 12 * width, max(c1, c2) + 12 * width
+        result, _ = quad(integrand, lower, upper, points=[c1, c2], limit=200)
 
         return result
 
